@@ -41,7 +41,9 @@ LEVEL_TEXT = (
 )
 LEVEL_NOTE = (
     "Trusted: Lean kernel; the hand-written model (diffed against slices_from_chunks, fuse_slice and "
-    "load_store_chunk on every run); NumPy setitem on the target; np.save/np.load; the OS file system."
+    "load_store_chunk on every run, the N-d write positions of every block against the per-axis product of the "
+    "model's pieces); NumPy setitem on the target writes the per-axis product; the scheduler runs every store "
+    "task once; np.save/np.load; the OS file system."
 )
 TECHNIQUE = "Lean 4 proof (tiling of ranges under an affine map) + differential correspondence with dask.array.core.store and NumPy targets"
 ASSUMPTIONS = [
